@@ -312,6 +312,34 @@ def xml_lengths(ctx: Ctx):
             ctx.unknown("R7.xml", site, str(e))
 
 
+def declared_charsets(ctx: Ctx):
+    """Every character-set name XTCE enumerates, as the `encoding` attribute of a declared string encoding (exact spelling, mixed
+    case included): the document loads and the field decodes in that character set."""
+    from ..xmlmodel import make_elem, clark, attach_nsmap
+    from . import xmlcommon as X
+    prog = ctx.prog
+    h = X.harness(prog)
+    ns = X.URI
+    X.set_ns_state(h, "xtce", {"xtce": ns})
+    E = lambda tag, attrib=None, children=None, text=None: make_elem(clark(ns, tag), attrib or {}, text, children=children or [])   # noqa: E731
+    for cs, codec, width in (("US-ASCII", "ascii", 1), ("ISO-8859-1", "latin-1", 1), ("Windows-1252", "cp1252", 1), ("UTF-8", "utf-8", 1),
+                             ("UTF-16BE", "utf-16-be", 2), ("UTF-16LE", "utf-16-le", 2), ("UTF-32BE", "utf-32-be", 4), ("UTF-32LE", "utf-32-le", 4)):
+        site = f"{ENC}::StringDataEncoding.from_xml::encoding={cs!r}"
+        text = "A\u00e9" if codec in ("latin-1", "cp1252") else "AZ"
+        raw = text.encode(codec)
+        el = E("StringDataEncoding", {"encoding": cs}, [E("SizeInBits", children=[E("Fixed", children=[E("FixedValue", text=str(8 * len(raw)))])])])
+        attach_nsmap(el)
+        try:
+            enc = h.ev("StringDataEncoding.from_xml(el)", ENC, el=el)
+            kind, got = h.outcome("enc.parse_value(pkt)", ENC, enc=enc, pkt=mk_packet(h, 0, {}, raw + b"\xff"))
+            ctx.decide(kind == "ok" and str(got) == text, "R7.xml", site, "", f"a string declared with encoding={cs!r}: "
+                       f"{'raises ' + str(got) if kind != 'ok' else 'decodes to ' + repr(str(got))}; the bytes {raw.hex()} are {text!r} in that character set")
+        except Raised as r:
+            ctx.refuted("R7.xml", site, f"a string encoding declared with encoding={cs!r} cannot be loaded: {r.exc.tname} {r.exc.args}")
+        except Unsupported as e:
+            ctx.unknown("R7.xml", site, str(e))
+
+
 def _adjuster_factory(prog):
     """Linear adjusters built by the library's own LinearAdjustment reader from a model element."""
     from ..xmlmodel import make_elem
@@ -334,6 +362,7 @@ def check(ctx: Ctx) -> None:
     ctx.guard("R7.bin", ENC, binary_table, ctx, h)
     ctx.guard("R7.str", ENC, string_table, ctx, h)
     ctx.guard("R7.xml", ENC, xml_lengths, ctx)
+    ctx.guard("R7.xml", ENC, declared_charsets, ctx)
     # a length lookup whose first entry is only partly satisfied (all criteria of an entry must hold), end to end
     from .c01 import end_to_end_second
     ctx.guard("R7.e2", ENC, end_to_end_second, ctx, "R7.e2")
@@ -354,6 +383,10 @@ def mutants(prog):
         if n:
             out.append((name, ENC, new, expect))
 
+    sub("xs:boolean 1 read as false (binary length reference)", r"param_inst_ref\.attrib\.get\('useCalibratedValue', \"true\"\)\.lower\(\) in \(\"true\", \"1\"\)",
+        "param_inst_ref.attrib.get('useCalibratedValue', \"true\").lower() == \"true\"", "R7.xml")
+    sub("xs:boolean 0 read as true (string length reference)", r"parameter_instance_ref_element\.attrib\.get\('useCalibratedValue', \"true\"\)\.lower\(\) in \(\"true\", \"1\"\)",
+        "parameter_instance_ref_element.attrib.get('useCalibratedValue', \"true\").lower() != \"false\"", "R7.xml")
     sub("string lookup by truthiness", r"buflen_bits = discrete_lookup\.evaluate\(packet\)\n                if buflen_bits is not None:", "buflen_bits = discrete_lookup.evaluate(packet)\n                if buflen_bits:")
     sub("binary lookup by truthiness", r"len_bits = discrete_lookup\.evaluate\(packet\)\n                if len_bits is not None:", "len_bits = discrete_lookup.evaluate(packet)\n                if len_bits:")
     sub("binary selector inverted", r"            if self\.use_calibrated_value:\n                len_bits = packet\[field_length_reference\]\n", "            if not self.use_calibrated_value:\n                len_bits = packet[field_length_reference]\n")
